@@ -5,6 +5,7 @@ import (
 	"os"
 	"regexp"
 	"strings"
+	"time"
 
 	"verif/harness/internal/mc"
 	"verif/harness/internal/world"
@@ -553,8 +554,14 @@ func c17Shard(tier string, shard, n int) *CustomResult {
 	run := &c17Run{nontrivial: map[string]bool{}, outcomes: map[string]bool{}, fpSeen: map[string]int{}}
 	cfgs := c17Configs(tier == "thorough")
 	apps := c17Apps()
+	deadline := shardDeadline(tier)
+	skipped := 0
 	for i, cfg := range cfgs {
 		if i%n != shard {
+			continue
+		}
+		if time.Now().After(deadline) {
+			skipped++
 			continue
 		}
 		run.runConfig(cfg, append([]world.AppSpec{}, apps...), false)
@@ -574,7 +581,7 @@ func c17Shard(tier string, shard, n int) *CustomResult {
 	}
 	return &CustomResult{Coverage: map[string]interface{}{
 		"evaluations": run.evals, "distinct_nontrivial": len(run.nontrivial), "configurations_loaded": run.configs, "configurations_rejected_by_validation": run.rejectedCfg,
-		"samples": run.samples, "exhaustive": true, "distinct_observed_outcomes": len(run.outcomes),
+		"samples": run.samples, "exhaustive": skipped == 0, "configurations_not_run_time_budget": skipped, "distinct_observed_outcomes": len(run.outcomes),
 	}, Violations: run.found, Harness: run.harness}
 }
 
